@@ -232,7 +232,8 @@ typeadjust(struct type *t, enum typequal *tq)
 		*tq = ptrqual;
 		break;
 	case TYPEFUNC:
-		assert(*tq == QUALNONE);
+		/* qualifiers on a function type are undefined behavior; ignore them */
+		*tq = QUALNONE;
 		t = mkpointertype(t, QUALNONE);
 		break;
 	}
